@@ -576,6 +576,8 @@ pub fn run(ctx: &Ctx, id: &str) -> i32 {
     sharded(&mut report, threads, |shard, r| {
         let mut rng = Rng::derive(seed, 0xC07 + shard as u64);
         let mut k = 0usize;
+        let fixed_cleanup: std::cell::RefCell<Option<Cleanup>> = std::cell::RefCell::new(None);
+        let fixed_cleanup = &fixed_cleanup;
         let mut run_one = |r: &mut Report, rng: &mut Rng, max_tx: usize, mut steps: Vec<Step>, k: usize| {
             if id == "C07" {
                 // probe suffix: makes the hidden map observable at the boundary
@@ -587,7 +589,11 @@ pub fn run(ctx: &Ctx, id: &str) -> i32 {
             // clean-up behaviour of this scenario
             let variant = rng.below(1 << 20);
             let code = eod_codes[k % eod_codes.len()];
+            let fixed = fixed_cleanup.borrow().clone();
             let cleanup_for = move |i: usize| -> Cleanup {
+                if let Some(c) = &fixed {
+                    return c.clone();
+                }
                 // C07: plain clean-ups for the enumerated histories of even index, varied ones otherwise (what an
                 // earlier clean-up left behind must not show in later token decisions)
                 if id == "C07" && k % 2 == 0 {
@@ -686,6 +692,26 @@ pub fn run(ctx: &Ctx, id: &str) -> i32 {
                 run_one(r, &mut rng, 2, steps, code as usize);
                 r.count("abort_code_sweep_histories", 1);
             }
+        }
+        // the same clean-up behaviour at every idle point of a history with three of them: the terminal reports the same
+        // dangling receipt each time (it restarts its numbering) / nothing / FFFF - each clean-up is complete in itself
+        if shard == 0 {
+            for pending in [Some(Some(77u64)), Some(Some(1)), Some(Some(9999)), None, Some(Some(0xffff)), Some(None)] {
+                for eod_abort in [None, Some(0xa0u8)] {
+                    *fixed_cleanup.borrow_mut() = Some(Cleanup { pending, reversal_abort: None, eod_abort, eod_abort_receipt: None, eod_pre: vec![] });
+                    let steps = vec![
+                        Step::Begin("a".into(), BeginOut::Success),
+                        Step::Commit("a".into(), 300, RevOut::Completed),
+                        Step::Begin("b".into(), BeginOut::Success),
+                        Step::Cancel("b".into(), RevOut::Completed),
+                        Step::Begin("c".into(), BeginOut::Success),
+                        Step::Commit("c".into(), 900, RevOut::Completed),
+                    ];
+                    run_one(r, &mut rng, 1, steps, 0);
+                    r.count("histories_with_the_same_cleanup_three_times", 1);
+                }
+            }
+            *fixed_cleanup.borrow_mut() = None;
         }
         // tokens that are equal after trimming / case folding are different tokens: both stay open, each acts on its own receipt
         for (ti, (t1, t2)) in [("cust-1", "cust-1 "), ("cust-1", " cust-1"), ("x", "X"), ("x", "x\t"), (" ", ""), ("ab", "a b")].iter().enumerate() {
